@@ -41,4 +41,16 @@ def resetBox (s b : RBox) (y : Rat) : RBox :=
   { s with width := some y, marginLeft := b.marginLeft, marginRight := b.marginRight, positionX := b.positionX }
 
 
+/-- With a known width, `block_level_width.without_min_max` only settles the horizontal margins (both end up
+numbers) and, in rtl, `position_x`. -/
+theorem blwCore_known_width (b : RBox) (cb : Cb) (w : Rat) (hw : b.width = some w) :
+    ∃ ml mr px, blwCore b cb = { b with marginLeft := some ml, marginRight := some mr, positionX := px } := by
+  rcases b with ⟨bw, bh, bml, bmr, bmt, bmb, pl, pr, bl, br, mnw, mxw, mnh, mxh, px, col⟩
+  simp only at hw
+  subst hw
+  rcases bml with _ | ml <;> rcases bmr with _ | mr <;>
+    simp only [blwCore, blwOverflow, blwOverConstrained, blwAutoWidth, blwMargins, Option.getD] <;>
+    split_ifs <;> simp only [blwMargins] <;> exact ⟨_, _, _, rfl⟩
+
+
 end Wp.C13
